@@ -97,16 +97,23 @@ pub fn scenario(pool_size: u32, op: &str, p: &str, v: &str) -> Scenario {
 
 /// `b_app`: client B's own application_name at startup (None = server default)
 pub fn scenario_b(pool_size: u32, op: &str, p: &str, v: &str, b_app: Option<&str>) -> Scenario {
-    let cfg = Cfg::one(PoolCfg::simple("db", "transaction", pool_size, 1, 0));
+    scenario_mode("transaction", pool_size, op, p, v, b_app)
+}
+
+/// `mode`: pool mode. In session mode a client keeps its server until it leaves; the next client gets the same
+/// connection (pool_size 1) with whatever the first one left on it.
+pub fn scenario_mode(mode: &str, pool_size: u32, op: &str, p: &str, v: &str, b_app: Option<&str>) -> Scenario {
+    let cfg = Cfg::one(PoolCfg::simple("db", mode, pool_size, 1, 0));
     let servers = cfg.servers();
     Scenario {
-        name: format!("C12 pool_size={} op={} param={} value={:?}{}", pool_size, op, p, v, b_app.map(|a| format!(" b_app={:?}", a)).unwrap_or_default())
+        name: format!("C12 pool_size={} op={} param={} value={:?}{}{}", pool_size, op, p, v, b_app.map(|a| format!(" b_app={:?}", a)).unwrap_or_default(), if mode == "session" { " mode=session" } else { "" })
             .replace(' ', "_")
             .replace("C12_pool", "C12 pool")
             .replace("_op=", " op=")
             .replace("_param=", " param=")
             .replace("_value=", " value=")
-            .replace("_b_app=", " b_app="),
+            .replace("_b_app=", " b_app=")
+            .replace("_mode=", " mode="),
         toml: cfg.toml(),
         alt_tomls: vec![],
         servers,
@@ -263,6 +270,15 @@ pub fn build(tier: &str) -> SimCheck {
             }
         }
     }
+    // session mode: the sync at checkout is the only moment the client's values reach its server
+    for pool_size in [1u32, 2] {
+        for op in ["startup", "set", "set-then-reset-all", "txn-set-commit"] {
+            for (p, val) in [("TimeZone", "America/New_York"), ("DateStyle", "SQL, DMY"), ("application_name", "a'b")] {
+                scenarios.push(scenario_mode("session", pool_size, op, p, val, None));
+                scenarios.push(scenario_mode("session", pool_size, op, p, val, Some("other-app")));
+            }
+        }
+    }
     // a RELOAD of an unrelated setting between the two clients
     for pool_size in [1u32, 2] {
         for op in ["startup", "set", "txn-set-commit"] {
@@ -276,7 +292,7 @@ pub fn build(tier: &str) -> SimCheck {
         oracle: Box::new(oracle),
         bound: if thorough { 3 } else { 2 },
         limits: Limits { max_wall_s: if thorough { 1500.0 } else { 55.0 }, ..Default::default() },
-        rule: "a RELOAD of an unrelated general setting between client A and client B (the pool is kept; B must be told, and run with, the defaults); client B also with an application_name of its own (unrelated / equal to A's up to letter case); scenario = pool_size {1,2} x operation of client A (startup parameter, SET, SET twice, SET with an untracked SET, SET then RESET ALL, SET inside a rolled-back / committed transaction) x tracked parameter x value (free text incl. space, quote, backslash, non-ASCII, empty for application_name; valid alternates for the others); client B uses defaults and shares the connection(s); every schedule with <= bound deviations; at every tagged statement the backend's value of each tracked parameter must equal what that client was told by ParameterStatus and what it established".into(),
+        rule: "a RELOAD of an unrelated general setting between client A and client B (the pool is kept; B must be told, and run with, the defaults); the same in session mode; client B also with an application_name of its own (unrelated / equal to A's up to letter case); scenario = pool_size {1,2} x operation of client A (startup parameter, SET, SET twice, SET with an untracked SET, SET then RESET ALL, SET inside a rolled-back / committed transaction) x tracked parameter x value (free text incl. space, quote, backslash, non-ASCII, empty for application_name; valid alternates for the others); client B uses defaults and shares the connection(s); every schedule with <= bound deviations; at every tagged statement the backend's value of each tracked parameter must equal what that client was told by ParameterStatus and what it established".into(),
         assumptions: vec!["reference backend reports ParameterStatus like PostgreSQL 14 (before ReadyForQuery, also on RESET ALL and ROLLBACK)".into()],
     }
 }
